@@ -77,8 +77,8 @@ pub fn run_c15(ctx: &Ctx) -> Report {
 		let dom3: Vec<Vec<u8>> = domains::references(
 			&o(&["s"]),
 			&o(&["h"]),
-			&domains::paths(&["%61", "abc", "a", "%41", "x"].iter().map(|s| domains::b(s)).collect::<Vec<_>>(), 2).into_iter().filter(|p| p.starts_with(b"/")).collect::<Vec<_>>(),
-			&[None, Some(domains::b("k:v")), Some(domains::b("k/v"))],
+			&domains::paths(&["%61", "abc", "a", "%41", "x", "%2E", "%2E%2E"].iter().map(|s| domains::b(s)).collect::<Vec<_>>(), 2).into_iter().filter(|p| p.starts_with(b"/")).collect::<Vec<_>>(),
+			&[None, Some(domains::b("")), Some(domains::b("k:v")), Some(domains::b("k/v"))],
 			&[None, Some(domains::b("f")), Some(domains::b("k:v"))],
 		)
 		.into_iter()
